@@ -100,7 +100,7 @@ type world struct {
 	skipKey       map[string]bool      // key -> a concurrent-phase operation started before that instant: not judged
 	opStart       map[string]time.Time // task -> start of its current operation
 	opStall0      map[string]time.Duration
-	srvErr        [][2]time.Time // periods in which the Redis server answered with errors
+	srvErr        [][2]time.Time  // periods in which the Redis server answered with errors
 	lastFar       map[string]bool // the last successful write of the key carried no or a far expiry
 	byTask        map[string]*taskState
 	// cancellations tied to the next mutation of a key (C07)
